@@ -1384,6 +1384,8 @@ package larking
 //@   assert atcall `cur.Mutable(` [the-selector-is-walked-through-the-messages-own-descriptors C11 C09] fdOwner(arg0) == pay(MsgFields(MsgDescriptor(cur)))
 //@   requires s != nil && s.method != nil && AllSingular(s.method.body) && impl(m, "proto.Message")
 //@   assert atcall `protojson.Unmarshal(` [websocket-receive-limit C08] len(arg0) <= s.maxRecv
+//@   count reads `wsutil.ReadClientData(`
+//@   ensures [a-message-is-read-whatever-kind-of-data-frame-carries-it C06] at every return old(s.method.hasBody) ==> reads == 1
 //@   assert at "return err" [a-normal-closure-is-the-end-of-the-stream-not-an-error C06] !NormalClosure(err)
 //@   assert at "return io.EOF" [end-of-stream-only-after-a-normal-closure C06] NormalClosure(err)
 //@   assert at "return err" [a-failed-read-is-never-a-clean-end C06] err != io.EOF
